@@ -38,6 +38,33 @@ theorem vhtml_verbatim (parent tag : Str) (indent : Nat) (attrs : List Attr) (ki
   have ht' : (tag == sTemplate) = false := by simpa using ht
   simp [renderNode, hc, hb, ht']
 
+/-- WHICH TEXT IS LAYOUT: a text node is left out of the output exactly when every character of it is HTML white space - space, tab, line
+    feed, form feed, carriage return … -/
+theorem blank_text_iff (d : Str) : blankText d = true ↔ ∀ c ∈ d, c = ' ' ∨ c = '\t' ∨ c = '\n' ∨ c = '\x0c' ∨ c = '\r' := by
+  simp [blankText, List.all_eq_true, or_assoc]
+
+/-- … so a text node holding any other character is WRITTEN, all of it - in particular text made of no-break spaces, em spaces or
+    ideographic spaces only, which a browser shows (fix: the serialiser used `strings.TrimSpace`, for which those are white space, and
+    dropped `&nbsp;` between two elements) -/
+theorem text_with_content_is_written (parent : Str) (indent : Nat) (d : Str) (c : Char) (hc : c ∈ d)
+    (hn : c ≠ ' ' ∧ c ≠ '\t' ∧ c ≠ '\n' ∧ c ≠ '\x0c' ∧ c ≠ '\r') :
+    renderNode parent indent (.text d) = spaces indent ++ renderTextData (isRawTextTag parent) d := by
+  have hb : blankText d = false := by
+    cases h : blankText d with
+    | false => rfl
+    | true =>
+      have := (blank_text_iff d).mp h c hc
+      rcases this with h1 | h1 | h1 | h1 | h1
+      · exact absurd h1 hn.1
+      · exact absurd h1 hn.2.1
+      · exact absurd h1 hn.2.2.1
+      · exact absurd h1 hn.2.2.2.1
+      · exact absurd h1 hn.2.2.2.2
+  simp [renderNode, hb]
+
+example : renderNode [] 2 (.text ['\u00a0']) = [' ', ' ', '\u00a0'] ∧ renderNode [] 2 (.text ['\u3000']) = [' ', ' ', '\u3000']
+    ∧ renderNode [] 2 (.text [' ', '\n', '\t']) = [] := by decide
+
 /-- the full document's doctype is written (as `<!DOCTYPE name>`), when the source says so -/
 theorem doctype_written (parent : Str) (indent : Nat) (d : Str) (h : Generated.rendersDoctype = true) :
     renderNode parent indent (.doctype d) = sDoctypeOpen ++ d ++ ['>', '\n'] := by
